@@ -96,7 +96,7 @@ NewStore(t, s, unique, ok, opts) ==
 
 OpenStore(t, s, ok, opts) ==
   /\ Active(t)
-  /\ (ok /\ s \in DOMAIN cat) => opts = cat[s].opts     \* C13
+  /\ (ok /\ s \in DOMAIN cat) => (opts = cat[s].opts \/ cat[s].opts = "")     \* C13 ("" while the creating NewBtree has not returned yet)
   /\ \/ ok = (s \in DOMAIN cat)
      \* deviation of the code: a store whose creating transaction is still in flight may be listed but not yet openable
      \/ (~ok /\ s \in DOMAIN cat /\ cat[s].by # "" /\ cat[s].by # t)
@@ -261,7 +261,7 @@ Observe(s, exists, items, count, opts) ==
   /\ exists = (s \in DOMAIN cat)
   /\ exists => /\ IsSortedDump(items, db[s])
                /\ count = Cardinality(db[s])
-               /\ opts = cat[s].opts                     \* C13: only count and timestamp ever change
+               /\ (opts = cat[s].opts \/ cat[s].opts = "")   \* C13: only count and timestamp ever change
   /\ UNCHANGED vars
 
 \* Observation while the creating transaction is still in flight may or may not list the store (not a content claim)
